@@ -2,7 +2,7 @@
 # seed sweep over every property's quick tier; prints one line per (seed, property)
 cd "$(dirname "$0")/.."
 for s in ${SEEDS:-2 3 4 5}; do
-  for p in C01 C02 C03 C04 C05 C06 C07 C08 C09 C10 C11 C12 C13 C14 C15 C16 C17 C18 C19 C20; do
+  for p in ${PROPLIST:-C01 C02 C03 C04 C05 C06 C07 C08 C09 C10 C11 C12 C13 C14 C15 C16 C17 C18 C19 C20}; do
     out=$(VERIF_SEED=$s ./check run $p --tier ${TIER:-quick} 2>&1)
     rc=$?
     echo "seed=$s $p rc=$rc $(echo "$out" | grep -E '^(OK|VIOLATION|KNOWN)' | head -2 | tr '\n' ' ')"
